@@ -1453,7 +1453,6 @@ class Executor:
         if meth in ("any", "all", "position"):
             used("Iterator::" + meth)
             clo = args[1]
-            conds = [(g, self.call_bool(st, clo, x, False) if meth != "position" else self.call_bool(st, clo, x, False)) for g, x in it.items] if False else None
             vals = []
             for g, x in it.items:
                 # any/all/position take the item by value (FnMut(Self::Item))
